@@ -21,11 +21,13 @@ SRC_STATE = {
 }
 
 
-def src_state(fl: flavours.Flavour, mk=1):
+def src_state(fl: flavours.Flavour, mk=1, xid=0):
     s = dict(SRC_STATE)
     if fl.model_default_did(1) == fl.model_default_did(2):
         s["dat"] = [1, 3, 3]
     s["did"] = [fl.model_default_did(d) for d in s["dat"]]
+    if xid:
+        s["did"] = [s["did"][0], xid, xid]
     s["meta"] = [[0] * mk for _ in range(3)]
     if fl.typed:
         s["knd"] = [1, 2, 1]
@@ -72,19 +74,28 @@ def _fl(name):
 
 
 def _exec_chunk(args):
-    chunk, flname, mk, maxd, use_src = args
+    chunk, flname, mk, maxd, use_src, src_xid = args
     fl = _fl(flname)
     out = []
     for rid, pre, op in chunk:
         if not core.op_applicable(op, fl):
             continue
         try:
-            b = core.build(pre, fl, mk)
+            try:
+                b = core.build(pre, fl, mk)
+            except Exception as e:  # noqa: BLE001
+                # a state the specification reaches by plain add_child calls could not be built with those calls
+                out.append({"id": rid, "fl": flname, "build_failed": f"{type(e).__name__}: {e}", "op": op, "pre": pre})
+                continue
             src = None
             if use_src or op.get("src") == "S" or op["name"] in ("add_tree", "tree_copy_to"):
-                src = core.build(src_state(fl, mk), fl, mk, name="src")
+                src = core.build(src_state(fl, mk, src_xid), fl, mk, name="src")
             pre_st = core.norm_state(pre)
             pre_st = {k: pre_st[k] for k in ("n", "par", "kids", "top", "dat", "did", "knd", "meta", "typed")}
+            if core.project(b)["st"] != pre_st:
+                out.append({"id": rid, "fl": flname, "build_failed": "Differs: the tree built by add_child calls is not "
+                            "the requested state", "op": op, "pre": pre})
+                continue
             rec = trace.run_step(b, op, rid, src, maxd, pre_st=pre_st)
         except Exception as e:  # noqa: BLE001   harness failure, reported as such
             rec = {"id": rid, "harness_error": f"{type(e).__name__}: {e}", "op": op, "pre": pre}
@@ -92,9 +103,9 @@ def _exec_chunk(args):
     return out
 
 
-def execute_pairs(pairs, flname, *, mk=1, maxd=4, procs=16, chunk=400, use_src=False):
+def execute_pairs(pairs, flname, *, mk=1, maxd=4, procs=16, chunk=400, use_src=False, src_xid=0):
     """pairs: list of (rid, pre, op).  Returns list of trace records."""
-    chunks = [(pairs[i:i + chunk], flname, mk, maxd, use_src) for i in range(0, len(pairs), chunk)]
+    chunks = [(pairs[i:i + chunk], flname, mk, maxd, use_src, src_xid) for i in range(0, len(pairs), chunk)]
     if procs <= 1 or len(chunks) <= 1:
         res = [_exec_chunk(c) for c in chunks]
     else:
@@ -111,7 +122,7 @@ _CK = re.compile(r'<<\s*"CHECKED",\s*(\d+)\s*>>')
 def validate_records(records, *, defdid="hash", mk=1, module="TraceCore.tla", shards=16, tag="val", timeout=1800,
                      extra_consts=None, nutree_consts=True):
     """Run TLC on the records (sharded over several JVMs).  Returns (mismatches, checked, wall)."""
-    good = [r for r in records if "harness_error" not in r]
+    good = [r for r in records if "harness_error" not in r and "build_failed" not in r]
     herr = [r for r in records if "harness_error" in r]
     if herr:
         raise TLCError(f"harness error while executing: {herr[0]['harness_error']} op={herr[0]['op']}")
